@@ -366,3 +366,47 @@ def to_plain(x):
     if isinstance(x, (list, tuple)):
         return [to_plain(v) for v in x]
     return x
+
+
+# ---------------------------------------------------------------------------
+# model of functools.lru_cache / functools.cache
+#
+# CrossHair skips lru_cache wrappers (every call goes to the wrapped function), which
+# hides stale-cache defects.  The import hook therefore rebinds lru_cache/cache in the wn
+# modules to this equality-based memo (keys compared with ==, as functools does after the
+# hash match; no eviction - maxsize only matters for memory).  All model caches are
+# cleared at the beginning and at the end of every explored path.
+
+_MODEL_CACHES = []
+
+
+def reset_model_caches():
+    for c in _MODEL_CACHES:
+        c.clear()
+
+
+def model_lru_cache(maxsize=128, typed=False):
+    def deco(fn):
+        store = LinDict()
+        _MODEL_CACHES.append(store)
+
+        def wrapper(*args, **kwargs):
+            key = (args, tuple(sorted(kwargs.items())))
+            if key in store:
+                return store[key]
+            r = fn(*args, **kwargs)
+            store[key] = r
+            return r
+        wrapper.__wrapped__ = fn
+        wrapper.__name__ = getattr(fn, '__name__', 'cached')
+        wrapper.__doc__ = getattr(fn, '__doc__', None)
+        wrapper.cache_clear = store.clear
+        return wrapper
+    if callable(maxsize):       # used bare: @lru_cache
+        fn, maxsize = maxsize, 128
+        return deco(fn)
+    return deco
+
+
+def model_cache(fn):
+    return model_lru_cache(None)(fn)
